@@ -120,6 +120,69 @@ def server_transport(kind, ws, tasks):
     raise ValueError(kind)
 
 
+class FakeQuic:
+    """Stands in for aioquic's QuicConnection under the repository's real RSocketQuicProtocol / RSocketQuicTransport: stream
+    data written on one side is handed to the peer protocol as StreamDataReceived events, cut at `cuts` (a cycling list of
+    chunk sizes; QUIC delivers a stream in pieces of its own choosing)."""
+
+    def __init__(self, cuts=None):
+        self.peer_protocol = None
+        self.protocol = None
+        self.cuts = list(cuts or [])
+        self._k = 0
+        self.closed = False
+        self.sent_bytes = 0
+
+    def get_next_available_stream_id(self):
+        return 0
+
+    def send_stream_data(self, stream_id, data, end_stream=False):
+        from aioquic.quic.events import StreamDataReceived
+        if self.closed:
+            raise ConnectionResetError('quic stand-in closed')
+        data = bytes(data)
+        self.sent_bytes += len(data)
+        loop = asyncio.get_event_loop()
+        pos = 0
+        while pos < len(data):
+            n = len(data) - pos
+            if self.cuts:
+                n = max(1, min(n, self.cuts[self._k % len(self.cuts)]))
+                self._k += 1
+            chunk = data[pos:pos + n]
+            pos += n
+            loop.call_soon(self.peer_protocol.quic_event_received,
+                           StreamDataReceived(data=chunk, end_stream=False, stream_id=stream_id))
+
+    def datagrams_to_send(self, now):
+        return []
+
+    def get_timer(self):
+        return None
+
+    def close(self, error_code=0, reason_phrase=''):
+        from aioquic.quic.events import ConnectionTerminated
+        if self.closed:
+            return
+        self.closed = True
+        self.protocol._closed.set()
+        peer = self.peer_protocol
+        if peer is not None and not peer._quic.closed:
+            asyncio.get_event_loop().call_soon(peer.quic_event_received,
+                                               ConnectionTerminated(error_code=0, frame_type=None, reason_phrase='peer closed'))
+
+
+def quic_pair(cuts_a=None, cuts_b=None):
+    """two real RSocketQuicProtocol objects joined through FakeQuic stand-ins; returns (protocol_a, protocol_b)"""
+    from rsocket.transports.aioquic_transport import RSocketQuicProtocol
+    qa, qb = FakeQuic(cuts_a), FakeQuic(cuts_b)
+    pa, pb = RSocketQuicProtocol(qa), RSocketQuicProtocol(qb)
+    qa.protocol, qb.protocol = pa, pb
+    qa.peer_protocol, qb.peer_protocol = pb, pa
+    pa._connected = pb._connected = True
+    return pa, pb
+
+
 def body(tag, i, n):
     """n bytes that say which request they belong to"""
     seed = ('%s%d|' % (tag, i)).encode()
@@ -159,11 +222,18 @@ async def run(loop, case):
             return StreamFromGenerator(gen)
 
     tasks = []
-    wa, wb = pair(case['client'], case['server'])
-    server = RSocketServer(server_transport(case['server'], wb, tasks), handler_factory=Handler,
-                           fragment_size_bytes=case['frag'])
-    client = RSocketClient(single_transport_provider(client_transport(case['client'], wa, tasks)),
-                           fragment_size_bytes=case['frag'])
+    if case['client'] == 'aioquic':
+        from rsocket.transports.aioquic_transport import RSocketQuicTransport
+        pa, pb = quic_pair(case.get('cuts'), case.get('cuts'))
+        wa = None
+        server = RSocketServer(RSocketQuicTransport(pb), handler_factory=Handler, fragment_size_bytes=case['frag'])
+        client = RSocketClient(single_transport_provider(RSocketQuicTransport(pa)), fragment_size_bytes=case['frag'])
+    else:
+        wa, wb = pair(case['client'], case['server'])
+        server = RSocketServer(server_transport(case['server'], wb, tasks), handler_factory=Handler,
+                               fragment_size_bytes=case['frag'])
+        client = RSocketClient(single_transport_provider(client_transport(case['client'], wa, tasks)),
+                               fragment_size_bytes=case['frag'])
     out = {'results': [], 'errors': []}
     await client.connect()
     ar = AwaitableRSocket(client)
@@ -210,7 +280,8 @@ async def run(loop, case):
         await asyncio.wait_for(server.close(), 30.0)
     except Exception as e:
         out['errors'].append('server.close: %r' % (e,))
-    await wa.close()
+    if wa is not None:
+        await wa.close()
     for t in tasks:
         t.cancel()
     for t in tasks:
